@@ -302,20 +302,37 @@ def _t1(ctx: Context) -> None:
         # the same offset through a shared lower bound: L = Decimal(minValue) if minValue is not None else None; L if L is not None else Decimal(0)
         LOW = ("ifexp", ("cmp", ("IsNot",), (cattr("minValue"), ("const", None))), ("call", DEC, (cattr("minValue"),), ()), ("const", None))
         ok_off = ok_off or off == ("ifexp", ("cmp", ("IsNot",), (LOW, ("const", None))), LOW, ("call", DEC, (("const", 0),), ()))
+        if not ok_off and off[0] == "phi":
+            # the offset chosen by statements (`lower = Decimal(minValue) if .. else None` ... `if lower is not None: offset =
+            # lower else: offset = Decimal(0)`): its possible values are exactly Decimal(minValue) and Decimal(0) (a `None`
+            # that a test on the local excludes is not a value of the offset).  Which one is taken where is not re-derived
+            # here (the choice is made through a local copy of the bound); a constant or foreign offset is still reported.
+            def _arms(t_):
+                if t_[0] in ("phi",):
+                    return [a_ for x_ in t_[1] for a_ in _arms(x_)]
+                if t_[0] == "ifexp":
+                    return _arms(t_[2]) + _arms(t_[3])
+                return [t_]
+
+            vals = {a_ for a_ in _arms(off) if a_ != ("const", None)}
+            ok_off = vals == {("call", DEC, (cattr("minValue"),), ()), ("call", DEC, (("const", 0),), ())}
         ck.check("C14.T1", ok_off, "offset = Decimal(minValue if minValue is not None else 0)", f"{ctx.fkey(f)}:offset",
                  f"check_convert_value: grid offset is {show(off, 160)}", ctx.loc(f, rn))
         ck.check("C14.T1", step == ("call", DEC, (cattr("minStep"),), ()), "step = Decimal(minStep)", f"{ctx.fkey(f)}:step",
                  f"check_convert_value: step is {show(step, 120)}", ctx.loc(f, rn))
         has_max = contains(v, lambda s: s[0] == "call" and s[1] == ("glob", "max") and ("call", DEC, (cattr("minValue"),), ()) in s[2])
         has_min = contains(v, lambda s: s[0] == "call" and s[1] == ("glob", "min") and ("call", DEC, (cattr("maxValue"),), ()) in s[2])
-        if not (has_max and has_min) and v[0] == "phi":
+        if not (has_max and has_min) and contains(v, lambda s_: s_[0] == "phi"):
             # clamp written with comparisons: `if x <= lower: x = lower` / `if x >= upper: x = upper` before the rounding
             def mentions(t, a):
                 return contains(t, lambda s_: s_ == ("call", DEC, (cattr(a),), ()))
 
-            lo_nodes = [n for n in cfg.nodes if n.kind == "stmt" and isinstance(n.ast, ast.Assign) and mentions(strip_sites(T.of(cfg, n, n.ast.value)), "minValue")
+            # only assignments to the variable that enters the rounding are clamps of it
+            vnames = {x.id for x in ast.walk(rn.ast.value) if isinstance(x, ast.Name) and strip_sites(T.of(cfg, rn, x)) == v}
+            is_v = lambda n_: not vnames or (isinstance(n_.ast.targets[0], ast.Name) and n_.ast.targets[0].id in vnames)  # noqa: E731
+            lo_nodes = [n for n in cfg.nodes if n.kind == "stmt" and isinstance(n.ast, ast.Assign) and is_v(n) and mentions(strip_sites(T.of(cfg, n, n.ast.value)), "minValue")
                         and not mentions(strip_sites(T.of(cfg, n, n.ast.value)), "maxValue") and n.id != rn.id and cfg.find_path(n.id, rn.id) is not None and isinstance(n.ast.value, ast.Name)]
-            hi_nodes = [n for n in cfg.nodes if n.kind == "stmt" and isinstance(n.ast, ast.Assign) and mentions(strip_sites(T.of(cfg, n, n.ast.value)), "maxValue")
+            hi_nodes = [n for n in cfg.nodes if n.kind == "stmt" and isinstance(n.ast, ast.Assign) and is_v(n) and mentions(strip_sites(T.of(cfg, n, n.ast.value)), "maxValue")
                         and not mentions(strip_sites(T.of(cfg, n, n.ast.value)), "minValue") and n.id != rn.id and cfg.find_path(n.id, rn.id) is not None and isinstance(n.ast.value, ast.Name)]
 
             def guarded(nodes, ops, bound):
@@ -402,13 +419,19 @@ def _t1(ctx: Context) -> None:
     ck.check("C14.T1", ok, "integer formats end in int(val.to_integral_value()), others in float(val)", f"{ctx.fkey(f)}:finalisation",
              "check_convert_value: the int/float finalisation changed (integer formats must yield int, float must yield float)", f.loc())
     # bool branch returns 1/0
-    bool_ret = None
-    for n in cfg.nodes:
-        if n.kind == "return" and n.exprs:
-            t = strip_sites(T.of(cfg, n, n.exprs[0]))
-            if t[0] == "ifexp" and t[2] == ("const", 1) and t[3] == ("const", 0):
-                bool_ret = n
-    okb = bool_ret is not None
+    def _arms01(t_):
+        if t_[0] == "ifexp":
+            return _arms01(t_[2]) + _arms01(t_[3])
+        if t_[0] == "phi":
+            return [a_ for x_ in t_[1] for a_ in _arms01(x_)]
+        return [t_]
+
+    # the return(s) whose value is 1 or 0 and nothing else, however the choice is written (conditional expression,
+    # if/else into a temporary, two returns)
+    bool_rets = [n for n in cfg.nodes if n.kind == "return" and n.exprs and n.exprs[0] is not None
+                 and set(_arms01(strip_sites(T.of(cfg, n, n.exprs[0])))) <= {("const", 1), ("const", 0)}]
+    vals01 = {a_ for n in bool_rets for a_ in _arms01(strip_sites(T.of(cfg, n, n.exprs[0])))}
+    okb = vals01 == {("const", 1), ("const", 0)}
     if okb:
         gate = []
         for n in cfg.nodes:
@@ -416,10 +439,10 @@ def _t1(ctx: Context) -> None:
                 cp = compare_parts(n.exprs[0])
                 if cp and cp[1] == "Eq" and ctx.const(f, cp[2], None) == "bool":
                     gate += cfg.out_edges(n, ("T",))
-        okb = bool(gate) and cfg.find_path(cfg.entry.id, bool_ret.id, avoid_edges=gate) is None
+        okb = bool(gate) and all(cfg.find_path(cfg.entry.id, br.id, avoid_edges=gate) is None for br in bool_rets)
         # and the bool outcome cannot reach any other return
         for e in gate:
-            for r in [x for x in cfg.nodes if x.kind == "return" and x is not bool_ret]:
+            for r in [x for x in cfg.nodes if x.kind == "return" and x not in bool_rets]:
                 if cfg.find_path(e[1], r.id) is not None:
                     okb = False
     ck.check("C14.T1", okb, "bool format yields exactly 1 or 0", f"{ctx.fkey(f)}:bool-branch",
@@ -452,6 +475,14 @@ def _g2(ctx: Context) -> None:
         for c in ctx.calls(n):
             if isinstance(c.func, ast.Attribute) and c.func.attr == "append" and c.args:
                 apps.append((n, strip_sites(T.of(cfg, n, c.args[0]))))
+    # the same list written as a comprehension (returned, or kept in a local first): its element, in loop-variable terms
+    from ..engine.terms import comp_as_loop
+
+    for n in cfg.nodes:
+        if n.kind == "return" and n.exprs and n.exprs[0] is not None:
+            cl = comp_as_loop(strip_sites(T.of(cfg, n, n.exprs[0])))
+            if cl is not None and not cl[1]:
+                apps.append((n, cl[0]))
     ok = bool(apps)
     for n, t in apps:
         good = False
